@@ -1262,6 +1262,13 @@ class Interp:
                     y = self.call_closure(A[1], [x], depth) if seg == 'flat_map' else x
                     out_.extend(self.drain(self.as_iter(y), depth))
                 return ('iter', IterObj(out_))
+            if seg in ('eq', 'ne') and len(A) == 2:
+                a_ = [self.deref_all(x) for x in self.drain(io, depth)]
+                b_ = [self.deref_all(x) for x in self.drain(self.as_iter(A[1]), depth)]
+                if any(x is None or x[0] not in ('key', 'int', 'ts', 'bool', 'addr') for x in a_ + b_):
+                    raise Unmodelled('Iterator::eq over %s' % sorted({x[0] if x else 'None' for x in a_ + b_}))
+                same = a_ == b_
+                return mk_bool(same if seg == 'eq' else not same)
             if seg == 'zip':
                 a_ = self.drain(io, depth)
                 b_ = self.drain(self.as_iter(A[1]), depth)
